@@ -129,6 +129,15 @@ CHECKS = {
                      'cases, 192 trigger-pair cases, ~33000 grid datagrams per run.',
                 note='bounded time is a line budget, not wall-clock; the budget constant covers the single loop bounded by a '
                      '16-bit count (DELETE)'),
+    'C20': dict(level='exploration', design='3 C20',
+                technique='the schedule generators of the other properties (negotiations, credential faults, error replies, kernel '
+                          'refusals, hostile datagrams) re-run with all log records captured; oracle = search of every INFO-or-above '
+                          'record for every secret of the run in 5 encodings, secrets re-derived independently by the reference '
+                          'observer; positive control on the DEBUG records',
+                text='No INFO/WARNING/ERROR record contains a PSK, SKEYSEED, SK_* key, CHILD_SA key or DH secret (hex lower/upper, '
+                     'repr, latin-1, base64) over generated histories with authentication failures, error replies, NEWSA refusals, '
+                     'corrupted and hostile input; the DEBUG stream must contain them (monitor not blind).',
+                note='secrets shorter than 8 octets are not searched; stderr tracebacks are not log records'),
 }
 
 NOT_YET = 'check not built yet in this session (planned, see DESIGN.md section 8)'
